@@ -32,6 +32,8 @@ def gen_cases(tier, seed):
         cfgd["iteration_limit"] = int(rng.choice([15, 50]))
         if rng.random() < 0.3:
             cfgd["rho"] = float(10.0 ** rng.uniform(-4, 0))
+        if rng.random() < 0.25:
+            cfgd.update(C.rare_params(rng, allow_unvalidated=True))
         case = work.mk_case(fam, [seed, k], cfgd)
         case["fmt"] = str(rng.choice(["coo", "csr", "csc"]))
         case["policy"] = str(rng.choice(["const", "memo"]))
